@@ -25,9 +25,9 @@ theorem step_append (s t : St) (th : Thread) (h : Step s t) : Step (addT s th) (
     obtain ⟨g, gl⟩ := get_app s.ws th i _ hi
     have := Step.retPerErr (addT s th) i w g hp hk hc
     simpa [addT, List.set_append, gl] using this
-  | lock i w hi hp hk ht =>
+  | lock i w g0 hi hp hk ht =>
     obtain ⟨g, gl⟩ := get_app s.ws th i _ hi
-    have := Step.lock (addT s th) i w g hp hk ht
+    have := Step.lock (addT s th) i w g0 g hp hk ht
     simpa [addT, List.set_append, gl] using this
   | hAcquire i w hi hp hk ht =>
     obtain ⟨g, gl⟩ := get_app s.ws th i _ hi
@@ -45,10 +45,10 @@ theorem step_append (s t : St) (th : Thread) (h : Step s t) : Step (addT s th) (
     obtain ⟨g, gl⟩ := get_app s.ws th j _ hj
     have := Step.flushFail (addT s th) j l m o g hp
     simpa [addT, List.set_append, gl] using this
-  | recvAccept i j w l m hj hi hp hm hl' hq hk hwm hsz =>
+  | recvAccept i j w l m g0 hj hi hp hm hl' hq hk hwm hsz =>
     obtain ⟨g1, gl1⟩ := get_app s.ws th j _ hj
     obtain ⟨g2, gl2⟩ := get_app s.ws th i _ hi
-    have := Step.recvAccept (addT s th) i j w l m g1 g2 hp hm hl' hq hk hwm hsz
+    have := Step.recvAccept (addT s th) i j w l m g0 g1 g2 hp hm hl' hq hk hwm hsz
     simpa [addT, set2, List.set_append, gl1, gl2] using this
   | reply i j w l m o hj hi hp hq =>
     obtain ⟨g1, gl1⟩ := get_app s.ws th j _ hj
@@ -76,9 +76,9 @@ theorem step_append (s t : St) (th : Thread) (h : Step s t) : Step (addT s th) (
     obtain ⟨g, gl⟩ := get_app s.ws th j _ hj
     have := Step.apply (addT s th) j l m o g hp
     simpa [addT, List.set_append, gl] using this
-  | publish j l m o rot hj hp =>
+  | publish j l m o rot hj hp hrot =>
     obtain ⟨g, gl⟩ := get_app s.ws th j _ hj
-    have := Step.publish (addT s th) j l m o rot g hp
+    have := Step.publish (addT s th) j l m o rot g hp hrot
     simpa [addT, List.set_append, gl] using this
   | rotateOk j l m o hj hp =>
     obtain ⟨g, gl⟩ := get_app s.ws th j _ hj
@@ -93,14 +93,18 @@ theorem step_append (s t : St) (th : Thread) (h : Step s t) : Step (addT s th) (
     obtain ⟨g2, gl2⟩ := get_app s.ws th i _ hi
     have := Step.ack (addT s th) i j w l k m o r g1 g2 hp hq
     simpa [addT, set2, List.set_append, gl1, gl2] using this
-  | handoff i j w l m r hj hi hp hq =>
+  | handoff i j w l m r g0 hj hi hp hq hc =>
     obtain ⟨g1, gl1⟩ := get_app s.ws th j _ hj
     obtain ⟨g2, gl2⟩ := get_app s.ws th i _ hi
-    have := Step.handoff (addT s th) i j w l m r g1 g2 hp hq
+    have := Step.handoff (addT s th) i j w l m r g0 g1 g2 hp hq hc
     simpa [addT, set2, List.set_append, gl1, gl2] using this
   | release j l m r hj hp =>
     obtain ⟨g, gl⟩ := get_app s.ws th j _ hj
     have := Step.release (addT s th) j l m r g hp
+    simpa [addT, List.set_append, gl] using this
+  | releaseLost j l m r hj hp hc hr =>
+    obtain ⟨g, gl⟩ := get_app s.ws th j _ hj
+    have := Step.releaseLost (addT s th) j l m r g hp hc hr
     simpa [addT, List.set_append, gl] using this
 
 theorem steps_append (s t : St) (th : Thread) (h : Steps s t) : Steps (addT s th) (addT t th) := by
@@ -109,8 +113,8 @@ theorem steps_append (s t : St) (th : Thread) (h : Steps s t) : Steps (addT s th
   | tail _ h ih => exact .tail ih (step_append _ _ th h)
 
 theorem reachable_append (s : St) (th : Thread) (hf : th.fresh) (h : Reachable s) : Reachable (addT s th) := by
-  obtain ⟨s0, ⟨h1, h2, h3⟩, hs⟩ := h
-  refine ⟨addT s0 th, ⟨h1, h2, ?_⟩, steps_append s0 s th hs⟩
+  obtain ⟨s0, ⟨h0, h1, h2, h3⟩, hs⟩ := h
+  refine ⟨addT s0 th, ⟨h0, h1, h2, ?_⟩, steps_append s0 s th hs⟩
   intro w hw
   simp only [addT, List.mem_append, List.mem_singleton] at hw
   rcases hw with hw | rfl
